@@ -1,6 +1,6 @@
 //! Models of PDF types
 
-use std::collections::HashMap;
+use std::collections::{HashMap, HashSet};
 use datasize::DataSize;
 
 use crate as pdf;
@@ -1118,8 +1118,26 @@ pub struct NameTree<T> {
     pub limits: Option<(PdfString, PdfString)>,
     pub node: NameTreeNode<T>,
 }
+/// Name and number trees are walked at most this deep.
+const MAX_TREE_DEPTH: usize = 64;
+
+/// Bookkeeping of a name / number tree walk: every node may be entered once (a node that is
+/// reachable twice means the "tree" has a cycle or shares nodes) and only to a limited depth.
+fn enter_tree_node(visited: &mut HashSet<PlainRef>, node: PlainRef, depth: usize) -> Result<()> {
+    if depth == 0 {
+        bail!("name/number tree is nested too deeply");
+    }
+    if !visited.insert(node) {
+        bail!("name/number tree node {} is reachable more than once", node.id);
+    }
+    Ok(())
+}
+
 impl<T: Object+DataSize> NameTree<T> {
     pub fn walk(&self, r: &impl Resolve, callback: &mut dyn FnMut(&PdfString, &T)) -> Result<(), PdfError> {
+        self.walk_limited(r, callback, &mut HashSet::new(), MAX_TREE_DEPTH)
+    }
+    fn walk_limited(&self, r: &impl Resolve, callback: &mut dyn FnMut(&PdfString, &T), visited: &mut HashSet<PlainRef>, depth: usize) -> Result<(), PdfError> {
         match self.node {
             NameTreeNode::Leaf(ref items) => {
                 for (name, val) in items {
@@ -1128,8 +1146,9 @@ impl<T: Object+DataSize> NameTree<T> {
             }
             NameTreeNode::Intermediate(ref items) => {
                 for &tree_ref in items {
+                    enter_tree_node(visited, tree_ref.get_inner(), depth)?;
                     let tree = r.get(tree_ref)?;
-                    tree.walk(r, callback)?;
+                    tree.walk_limited(r, callback, visited, depth - 1)?;
                 }
             }
         }
@@ -1286,6 +1305,9 @@ impl<T: ObjectWrite> ObjectWrite for NumberTree<T> {
 }
 impl<T: Object+DataSize> NumberTree<T> {
     pub fn walk(&self, r: &impl Resolve, callback: &mut dyn FnMut(i32, &T)) -> Result<(), PdfError> {
+        self.walk_limited(r, callback, &mut HashSet::new(), MAX_TREE_DEPTH)
+    }
+    fn walk_limited(&self, r: &impl Resolve, callback: &mut dyn FnMut(i32, &T), visited: &mut HashSet<PlainRef>, depth: usize) -> Result<(), PdfError> {
         match self.node {
             NumberTreeNode::Leaf(ref items) => {
                 for &(idx, ref val) in items {
@@ -1294,8 +1316,9 @@ impl<T: Object+DataSize> NumberTree<T> {
             }
             NumberTreeNode::Intermediate(ref items) => {
                 for &tree_ref in items {
+                    enter_tree_node(visited, tree_ref.get_inner(), depth)?;
                     let tree = r.get(tree_ref)?;
-                    tree.walk(r, callback)?;
+                    tree.walk_limited(r, callback, visited, depth - 1)?;
                 }
             }
         }
